@@ -708,22 +708,27 @@ class DivisionOperator(BinaryOperator):
         return self.element_1.named_arrayed
 
 class NumericalMultiplicationOperator(BinaryOperator):
+    def _el1_arrayed(self):
+        return isinstance(self.element_1, BPTK_Py.sddsl.element.Element) and self.element_1._elements.vector_size() > 0
+
+    def _el2_arrayed(self):
+        return isinstance(self.element_2, BPTK_Py.sddsl.element.Element) and self.element_2._elements.vector_size() > 0
+
     def term(self, time="t"):
         if self.arrayed:
             if self.index == None:  # Can not resolve arrayed equations without index
                 return "0.0"
 
-            self.el1_arrayed = isinstance(
-                self.element_1, BPTK_Py.sddsl.element.Element) and self.element_1._elements.vector_size()
-
-            if(self.el1_arrayed):
-                cur_el1 = self.element_1
+            # either operand can be the arrayed one (number * array and array * number)
+            cur_el1 = self.element_1
+            if self._el1_arrayed():
                 for i in self.index:
                     cur_el1 = cur_el1[i]
-                return "({}) * ({})".format(self.element_2.term(time), cur_el1.term(time))
-
-            else:
-                return "(" + self.element_2.term(time) + ") * (" + self.element_1.term(time) + ")"
+            cur_el2 = self.element_2
+            if self._el2_arrayed():
+                for i in self.index:
+                    cur_el2 = cur_el2[i]
+            return "({}) * ({})".format(cur_el2.term(time), cur_el1.term(time))
         else:
             return "(" + self.element_2.term(time) + ") * (" + self.element_1.term(time) + ")"
 
@@ -748,13 +753,13 @@ class NumericalMultiplicationOperator(BinaryOperator):
         return NumericalMultiplicationOperator(element_1, element_2, index)
 
     def index_to_string(self, index):
-        if self.el1_arrayed:
+        if self._el1_arrayed():
             return self.element_1._elements.equations[index]
         else:
             return self.element_2._elements.equations[index]
 
     def is_named(self):
-        if self.el1_arrayed:
+        if self._el1_arrayed():
             return self.element_1.named_arrayed
         else:
             return self.element_2.named_arrayed
